@@ -40,6 +40,27 @@ pub fn build<M: GseDecapMemory>(sh: &Shape) -> (M, Ghost) {
     (m, g)
 }
 
+/// The free-list capacity is fixed at construction (slots + 2): in the state reached after
+/// the operation, one more buffer is accepted exactly when fewer than that are free.
+pub fn probe_capacity<M: GseDecapMemory>(m: &mut M, g: &mut Ghost, s: usize) {
+    let (b, bg) = mk_buf(Z);
+    match m.provision_storage(b) {
+        Ok(()) => {
+            assert!(g.nfree < s + 2, "C17.capacity_is_fixed_at_construction");
+            if g.nfree < 4 {
+                g.free[g.nfree] = bg;
+            }
+            g.nfree += 1;
+        }
+        Err(DecapMemoryError::StorageOverflow(x)) | Err(DecapMemoryError::BufferTooSmall(x)) => {
+            assert!(g.nfree >= s + 2, "C17.provision_refused_only_when_full_or_small");
+            assert!(buf_matches(&x, &bg), "C17.refused_buffer_handed_back");
+            core::mem::forget(x);
+        }
+        Err(_) => assert!(false, "C17.refused_buffer_handed_back"),
+    }
+}
+
 /// Drain the memory and compare with the expected ghost state.
 pub fn drain_and_check<M: GseDecapMemory>(m: &mut M, g: &Ghost, s: usize) {
     let mut k = 0;
@@ -230,6 +251,9 @@ pub fn op_new_frag<M: GseDecapMemory>(sh: &Shape) {
             kani::cover!(true, "underflow");
         }
     }
+    if g.nfree <= 3 {
+        probe_capacity(&mut m, &mut g, sh.s);
+    }
     drain_and_check(&mut m, &g, sh.s);
     core::mem::forget(m);
 }
@@ -275,6 +299,7 @@ const S1O1: Shape = Shape { s: 1, occ: [true, false, false], free: 1, ext: 1 };
 const S1O3: Shape = Shape { s: 1, occ: [true, false, false], free: 3, ext: 0 };
 const S1O2: Shape = Shape { s: 1, occ: [true, false, false], free: 2, ext: 0 };
 const S2O2: Shape = Shape { s: 2, occ: [true, true, false], free: 2, ext: 0 };
+const S1OFULL: Shape = Shape { s: 1, occ: [true, false, false], free: 3, ext: 0 };
 const S2A: Shape = Shape { s: 2, occ: [true, false, false], free: 1, ext: 0 };
 const S2B: Shape = Shape { s: 2, occ: [true, true, false], free: 0, ext: 0 };
 const S2F: Shape = Shape { s: 2, occ: [false, true, false], free: 4, ext: 0 };
@@ -301,6 +326,8 @@ contract!(simple_new_frag_s1_empty_nobuf, 6, Sm, op_new_frag::<Sm>(&S1E0));
 contract!(simple_new_frag_s1_empty, 6, Sm, op_new_frag::<Sm>(&S1E2));
 contract!(simple_new_frag_s1_occ, 6, Sm, op_new_frag::<Sm>(&S1O1));
 contract!(simple_new_frag_s2, 6, Sm, op_new_frag::<Sm>(&S2A));
+// occupied slot AND full free list: the capacity must still be the configured one afterwards
+contract!(simple_new_frag_s1_occ_full, 6, Sm, op_new_frag::<Sm>(&S1OFULL));
 contract!(simple_save_s1_empty, 6, Sm, op_save::<Sm>(&S1E2));
 contract!(simple_save_s1_occ, 6, Sm, op_save::<Sm>(&S1O0));
 contract!(simple_save_s2, 6, Sm, op_save::<Sm>(&S2A));
@@ -309,6 +336,35 @@ contract!(simple_take_s3, 6, Sm, op_take::<Sm>(&S3A));
 contract!(simple_new_frag_s3, 6, Sm, op_new_frag::<Sm>(&S3A));
 contract!(simple_save_s3, 6, Sm, op_save::<Sm>(&S3A));
 contract!(simple_provision_s3, 6, Sm, op_provision::<Sm>(&S3A, false));
+
+/// Native replay of a counterexample of the MIR->SMT slot-index member (vp/mirsmt.py): a memory
+/// with `n` slots, two contexts with different ids `a` and `b`; both must be retrievable intact
+/// and nothing may panic.  Concrete values only (runs under `cargo kani playback` as a plain test).
+pub fn slot_replay(n: usize, a: u8, b: u8) {
+    assert!(a != b);
+    let mut m = Sm::new(n, Z, 0, 0);
+    assert!(m.provision_storage(vec![0u8; Z].into_boxed_slice()).is_ok(), "C17.provision_below_capacity_accepted");
+    assert!(m.provision_storage(vec![0u8; Z].into_boxed_slice()).is_ok(), "C17.provision_below_capacity_accepted");
+    let ca = DecapContext::new(Label::Broadcast, 0x1111, a, 10, 0, false, Vec::new());
+    let cb = DecapContext::new(Label::Broadcast, 0x2222, b, 20, 0, false, Vec::new());
+    match m.new_frag(ca) {
+        Ok(x) => assert!(m.save_frag(x).is_ok(), "C17.save_into_empty_slot_accepted"),
+        Err(_) => panic!("C17.new_frag_takes_a_free_buffer"),
+    }
+    match m.new_frag(cb) {
+        Ok(x) => assert!(m.save_frag(x).is_ok(), "C17.save_into_empty_slot_accepted"),
+        Err(_) => panic!("C17.new_frag_takes_a_free_buffer"),
+    }
+    match m.take_frag(a) {
+        Ok((c, _)) => assert!(c.frag_id == a && c.protocol_type == 0x1111 && c.total_len == 10, "C17.take_returns_saved_context"),
+        Err(_) => panic!("C17.saved_context_is_retrievable"),
+    }
+    match m.take_frag(b) {
+        Ok((c, _)) => assert!(c.frag_id == b && c.protocol_type == 0x2222 && c.total_len == 20, "C17.take_returns_saved_context"),
+        Err(_) => panic!("C17.saved_context_is_retrievable"),
+    }
+    assert!(matches!(m.take_frag(a), Err(DecapMemoryError::UndefinedId)), "C17.take_frag_unknown_id_is_undefined");
+}
 
 // the reference memory satisfies the same contract (so that decap harnesses may use it)
 type R1 = RefMem<1>;
